@@ -1,4 +1,5 @@
-package core
+// Package drv holds helpers shared by the property drivers.
+package drv
 
 import (
 	"bufio"
@@ -14,18 +15,18 @@ import (
 	"verifh/resp"
 )
 
-// chunkReader delivers its data in pieces of the given sizes (cycled).
-type chunkReader struct {
-	data  []byte
-	sizes []int
+// ChunkReader delivers its data in pieces of the given sizes (cycled).
+type ChunkReader struct {
+	Data  []byte
+	Sizes []int
 	i     int
 }
 
-func (c *chunkReader) Read(p []byte) (int, error) {
-	if len(c.data) == 0 {
+func (c *ChunkReader) Read(p []byte) (int, error) {
+	if len(c.Data) == 0 {
 		return 0, io.EOF
 	}
-	n := c.sizes[c.i%len(c.sizes)]
+	n := c.Sizes[c.i%len(c.Sizes)]
 	c.i++
 	if n <= 0 {
 		n = 1
@@ -33,15 +34,15 @@ func (c *chunkReader) Read(p []byte) (int, error) {
 	if n > len(p) {
 		n = len(p)
 	}
-	if n > len(c.data) {
-		n = len(c.data)
+	if n > len(c.Data) {
+		n = len(c.Data)
 	}
-	copy(p, c.data[:n])
-	c.data = c.data[n:]
+	copy(p, c.Data[:n])
+	c.Data = c.Data[n:]
 	return n, nil
 }
 
-func splitPlan(r *rand.Rand, k int) []int {
+func SplitPlan(r *rand.Rand, k int) []int {
 	switch k % 6 {
 	case 0:
 		return []int{1 << 20}
@@ -63,13 +64,13 @@ func splitPlan(r *rand.Rand, k int) []int {
 	}
 }
 
-// expectNode is the VerifNode a faithful decoder must produce for v.
-func expectNode(v resp.V) rueidis.VerifNode {
+// ExpectNode is the VerifNode a faithful decoder must produce for v.
+func ExpectNode(v resp.V) rueidis.VerifNode {
 	n := rueidis.VerifNode{Typ: v.T}
 	if v.Attr != nil {
 		a := rueidis.VerifNode{Typ: '|', Values: make([]rueidis.VerifNode, len(v.Attr))}
 		for i, e := range v.Attr {
-			a.Values[i] = expectNode(e)
+			a.Values[i] = ExpectNode(e)
 		}
 		n.Attrs = &a
 	}
@@ -81,7 +82,7 @@ func expectNode(v resp.V) rueidis.VerifNode {
 	case '*', '%', '~', '>':
 		n.Values = make([]rueidis.VerifNode, len(v.A))
 		for i, e := range v.A {
-			n.Values[i] = expectNode(e)
+			n.Values[i] = ExpectNode(e)
 		}
 	case ':', '#':
 		n.Int = v.I
@@ -92,25 +93,25 @@ func expectNode(v resp.V) rueidis.VerifNode {
 	return n
 }
 
-func nodeEqual(a, b rueidis.VerifNode) bool {
+func NodeEqual(a, b rueidis.VerifNode) bool {
 	if a.Typ != b.Typ || a.Str != b.Str || a.Int != b.Int || len(a.Values) != len(b.Values) {
 		return false
 	}
 	if (a.Attrs == nil) != (b.Attrs == nil) {
 		return false
 	}
-	if a.Attrs != nil && !nodeEqual(*a.Attrs, *b.Attrs) {
+	if a.Attrs != nil && !NodeEqual(*a.Attrs, *b.Attrs) {
 		return false
 	}
 	for i := range a.Values {
-		if !nodeEqual(a.Values[i], b.Values[i]) {
+		if !NodeEqual(a.Values[i], b.Values[i]) {
 			return false
 		}
 	}
 	return true
 }
 
-func nodeString(n rueidis.VerifNode) string {
+func NodeString(n rueidis.VerifNode) string {
 	var sb strings.Builder
 	var w func(n rueidis.VerifNode)
 	w = func(n rueidis.VerifNode) {
@@ -139,8 +140,8 @@ func nodeString(n rueidis.VerifNode) string {
 	return sb.String()
 }
 
-func decodeAll(data []byte, sizes []int, bufsize int) ([]rueidis.VerifNode, error) {
-	r := bufio.NewReaderSize(&chunkReader{data: data, sizes: sizes}, bufsize)
+func DecodeAll(data []byte, sizes []int, bufsize int) ([]rueidis.VerifNode, error) {
+	r := bufio.NewReaderSize(&ChunkReader{Data: data, Sizes: sizes}, bufsize)
 	var out []rueidis.VerifNode
 	for {
 		m, err := rueidis.VerifReadNextMessage(r)
@@ -154,13 +155,13 @@ func decodeAll(data []byte, sizes []int, bufsize int) ([]rueidis.VerifNode, erro
 	}
 }
 
-// childEnv is set in re-executed child processes (crash isolation, DESIGN §1.8).
-const childEnv = "VERIF_CHILD"
+// ChildEnv is set in re-executed child processes (crash isolation, DESIGN §1.8).
+const ChildEnv = "VERIF_CHILD"
 
-// runChild re-executes this test binary running only test name with the given env, returning combined output.
-func runChild(test string, env map[string]string, memLimitMB int) (string, error) {
+// RunChild re-executes this test binary running only test name with the given env, returning combined output.
+func RunChild(test string, env map[string]string, memLimitMB int) (string, error) {
 	cmd := exec.Command(os.Args[0], "-test.run", "^"+test+"$", "-test.count=1", "-test.timeout=0")
-	cmd.Env = append(os.Environ(), childEnv+"=1", fmt.Sprintf("GOMEMLIMIT=%dMiB", memLimitMB))
+	cmd.Env = append(os.Environ(), ChildEnv+"=1", fmt.Sprintf("GOMEMLIMIT=%dMiB", memLimitMB))
 	for k, v := range env {
 		cmd.Env = append(cmd.Env, k+"="+v)
 	}
@@ -171,6 +172,22 @@ func runChild(test string, env map[string]string, memLimitMB int) (string, error
 	return out.String(), err
 }
 
-func isChild() bool { return os.Getenv(childEnv) != "" }
+func IsChild() bool { return os.Getenv(ChildEnv) != "" }
 
-func hexs(b []byte) string { return fmt.Sprintf("%q", b) }
+func Hexs(b []byte) string { return fmt.Sprintf("%q", b) }
+
+// Trunc returns at most n bytes of b.
+func Trunc(b []byte, n int) []byte {
+	if len(b) > n {
+		return b[:n]
+	}
+	return b
+}
+
+// Tail returns at most the last n bytes of s.
+func Tail(s string, n int) string {
+	if len(s) > n {
+		return s[len(s)-n:]
+	}
+	return s
+}
